@@ -871,9 +871,21 @@ def other_entry_points(run, vsim, d, quick, cfgname, fmt, data, verdicts, r):
     one of the file (which the reader models are tied to); a proper prefix that one entry point accepts and the other
     rejects is reported"""
     how = "buf" if fmt == "binary" else "str"
-    pick = [v for i, v in enumerate(verdicts) if (i % (6 if quick else 2)) == 0]
+    pick = [v for i, v in enumerate(verdicts) if (i % (6 if quick else 4)) == 0]
     p = os.path.join(d.path, "dmg.colvars.state")
     n = 0
+    if fmt == "binary" and len(data) > 8:
+        # a complete buffer whose magic number is wrong (colvarmodule::read_state(memory_stream &) is the only check on this path)
+        dd = bytearray(data); dd[0] ^= 1
+        open(p, "wb").write(bytes(dd))
+        rc, ld = try_load_(vsim, d, "dmg.colvars.state", cfgname, False, how)
+        n += 1
+        run.count("%s-binary-buf-bad-magic" % cfgname, True)
+        run.dist("damage:binary-bad-magic-via-buffer")
+        if rc >= 128 or rc == 124 or rc < 0 or ld is None or ld[0] == "ok":
+            run.violation("load.bad-magic-number-via-buffer", "a state buffer whose magic number has one bit flipped (%s configuration) %s"
+                          % (cfgname, "is accepted without any error" if (ld and ld[0] == "ok") else "kills or hangs the process (rc=%d)" % rc),
+                          {"kind": "load", "format": fmt, "config": cfgname, "flip": [0, 0], "how": how})
     for cut, verdict in pick:
         if fmt == "binary" and cut < 4:
             continue
